@@ -19,6 +19,7 @@ type pollDesc11 struct {
 	Peer    []peerAct `json:"peer"`
 	Detach  bool      `json:"detach,omitempty"` // the user detaches the operator at some point
 	Unread  bool      `json:"unread,omitempty"` // our side never reads what the peer sent (reset on peer close)
+	Writable bool     `json:"writable,omitempty"` // registered with PollWritable (edge triggered, as the dialer does): OnWrite/OnHup only
 }
 
 type pollScn struct {
@@ -43,6 +44,7 @@ type pollRec struct {
 	peerGot   []byte
 	inputsN   int
 	order     []string
+	writes    int
 }
 
 type pollOutcome struct {
@@ -137,6 +139,14 @@ func runPoll(t *rapid.T, s pollScn, replay []vs.Step) *pollOutcome {
 				return nil
 			}
 		}
+		if d.Writable {
+			op.Inputs, op.InputAck, op.Outputs, op.OutputAck = nil, nil, nil, nil
+			op.OnWrite = func(Poll) error {
+				r.writes++
+				w.ev(fmt.Sprintf("d%d:onwrite", idx))
+				return nil
+			}
+		}
 		r.op = op
 		return r
 	}
@@ -150,6 +160,10 @@ func runPoll(t *rapid.T, s pollScn, replay []vs.Step) *pollOutcome {
 	// registration by a user actor (Control is a schedule point)
 	w.s.Go("user", false, func() {
 		for i, r := range o.recs {
+			if s.Descs[i].Writable {
+				r.op.Control(PollWritable)
+				continue
+			}
 			r.op.Control(PollReadable)
 			if s.Descs[i].Out > 0 {
 				r.op.Control(PollR2RW)
@@ -290,6 +304,13 @@ func judgePoll(s pollScn, o *pollOutcome) (sig, msg string) {
 		if r.hups == 1 && r.hupDet < 1 {
 			return "hup-before-detach", desc + ": OnHup ran before the descriptor was deregistered"
 		}
+		if d.Writable {
+			// an edge-triggered registration sees the hang-up exactly once (it is never redelivered)
+			if r.peerEnded && !d.Detach && r.hups != 1 {
+				return "hup-missing", fmt.Sprintf("%s (PollWritable): the peer closed, OnHup ran %d times, OnWrite %d times | events: %s", desc, r.hups, r.writes, logs)
+			}
+			continue
+		}
 		if !d.Unread {
 			exp := keyedBytes(i*(1<<16), len(r.got))
 			if len(r.got) > r.sent || string(r.got) != string(exp) {
@@ -360,6 +381,14 @@ func genPollScn(t *rapid.T) pollScn {
 			d.Out = rapid.IntRange(1, 12000).Draw(t, "out")
 		}
 		d.Detach = rapid.IntRange(0, 7).Draw(t, "detach") == 0
+		if rapid.IntRange(0, 4).Draw(t, "writable") == 0 {
+			d = pollDesc11{InBuf: 8, Writable: true}
+			if rapid.IntRange(0, 3).Draw(t, "wclose") > 0 {
+				d.Peer = []peerAct{{Op: "close"}}
+			}
+			s.Descs = append(s.Descs, d)
+			continue
+		}
 		for j, m := 0, rapid.IntRange(0, 4).Draw(t, "nacts"); j < m; j++ {
 			if d.Out > 0 && rapid.Bool().Draw(t, "rd") {
 				d.Peer = append(d.Peer, peerAct{Op: "read", N: rapid.IntRange(1, 4096).Draw(t, "rn")})
@@ -440,6 +469,9 @@ func TestVerifC11(t *testing.T) {
 			}
 			if d.Out > 0 {
 				st.class("output")
+			}
+			if d.Writable {
+				st.class("pollwritable")
 			}
 		}
 		st.classN("steps", int64(len(o.w.s.Trace)))
